@@ -254,7 +254,8 @@ fn replay(path: &str) -> i32 {
     let props: [&'static str; 17] = [
         "C01", "C07", "C08", "C09", "C10", "C18", "C02", "C03", "C04", "C05", "C06", "C14", "C16", "C17", "C20", "C11", "C19",
     ];
-    core::set_delay_mode(1, 1);
+    let mode = std::env::var("VERIF_DELAY_MODE").ok().and_then(|s| s.parse().ok()).unwrap_or(1);
+    core::set_delay_mode(mode, 1);
     for p in props {
         if p != prop {
             continue;
